@@ -64,6 +64,8 @@ def cases(rng, tier):
                     # (normalised, but not in the right-canonical form the sweep needs); between repeated invocations the
                     # state may have been re-gauged by the caller
                     'prep': rng.choice(['none', 'none', 'left', 'left']), 'between': rng.choice(['none', 'left', 'right'])})
+        if rng.random() < (0.4 if out[-1]['complete'] else 0.1):
+            out[-1]['hmag'] = rng.choice([-24, -27, 10])       # Hamiltonian times 2^hmag (exact): energy scale 6e-8, 7e-9 / 1e3
     # local problems smaller than the number of Lanczos iterations (bond dimension one or two, short chains): the Krylov space of a
     # local solve is exhausted before numiter_lanczos (finding F8)
     for k in range({'quick': 24, 'thorough': 200, 'search': 60}[tier]):
@@ -97,6 +99,8 @@ def impl(case):
     import pytenet as ptn
     rs = np.random.default_rng(case['seed'])
     H = T.hamiltonian(case['model'], case['L'], rs)
+    if case.get('hmag'):
+        H.A[0] = H.A[0] * 2.0 ** case['hmag']
     L = H.nsites
     info = {}
     psi = T.state(H, rs, Dmax=case['Dmax'], complete=case['complete'], dtype=case.get('sdtype', 'complex'), info=info)
@@ -151,7 +155,7 @@ def prop(case, r):
     if 'error' in r:
         return ['DMRG raised %s: %s' % (r['error'], r.get('detail', ''))]
     msgs = []
-    tol = 1e-9 * (1 + r['hscale'])
+    tol = 1e-9 * (r['hscale'] if case.get('hmag') else 1 + r['hscale'])      # relative to the energy scale in the magnitude regimes
     rep = r['reported']
     sw = r['sweeps']
     for k, (nr, ef) in enumerate(zip(r['norms'], r['finals'])):
@@ -171,7 +175,7 @@ def prop(case, r):
         if b > a + tol:
             msgs.append('reported energies increase: %.12g -> %.12g' % (a, b))
             break
-    if r['complete'] and r['e_gs'] is not None and abs(rep[-1] - r['e_gs']) > 1e-7 * (1 + r['hscale']):
+    if r['complete'] and r['e_gs'] is not None and abs(rep[-1] - r['e_gs']) > 1e-7 * (r['hscale'] if case.get('hmag') else 1 + r['hscale']):
         msgs.append('complete manifold: final energy %.12g does not reach the exact ground-state energy %.12g' % (rep[-1], r['e_gs']))
     if not r['H_unchanged']:
         msgs.append('the Hamiltonian MPO was modified')
